@@ -82,6 +82,32 @@ def walks_to_scripts(ctx, cap, g, rng, name_no):
     return scripts, sum(len(w) for w in walks)
 
 
+def page_script(rng, name_no, pages):
+    """a segment that ends exactly at a page boundary (capacity + 17 header bytes = whole pages): nothing may be touched behind it"""
+    cap = 4096 * pages - 17
+    name_no[0] += 1
+    lines = ["reset", "name %d" % name_no[0], "bnew 1 %d" % cap, "bnew 2 0", "bsp 1"]
+    used = 0
+    for i in range(40):
+        h = rng.choice([1, 2])
+        r = rng.random()
+        if r < 0.4:
+            ln = rng.choice([1, 7, 100, 700])
+            if ln <= cap - used:
+                lines.append("bw %d %s" % (h, " ".join(str(rng.randint(0, 255)) for _ in range(ln))))
+                used += ln
+        elif r < 0.7:
+            ln = rng.choice([0, 1, 50, 800])
+            lines.append("br %d %d" % (h, ln))
+            used -= min(ln, used)
+        else:
+            lines.append("bclr %d" % h)
+            used = 0
+        lines.append("bsp %d" % rng.choice([1, 2]))
+    lines += ["bfree 2", "bfree 1"]
+    return lines
+
+
 def random_script(rng, name_no, nops, smaller=False):
     cap = rng.choice([1, 2, 3, 7, 8, 9, 15, 16, 17, 63, 64, 100, 255, 256, 300])
     name_no[0] += 1
@@ -149,8 +175,10 @@ def run(ctx):
         scripts += [("walk", s) for s in sc[:6]]
     for i in range(6 if ctx.quick else 40):
         scripts.append(("rand", (random_script(rng, name_no, 250 if ctx.quick else 1500), None, None)))
+    for pages in ((1, 2) if ctx.quick else (1, 2, 3, 4)):
+        scripts.append(("page", (page_script(rng, name_no, pages), None, None)))
     finding_scripts = [("smaller", (random_script(rng, name_no, 30, smaller=True), None, None)) for _ in range(2)]
-    exe = build.driver("drv_shmbuf", ["drv_shmbuf.c"], variant="asan")
+    exe = build.driver("drv_shmbuf", ["drv_shmbuf.c"], variant="asan", wraps=["mmap", "munmap"])
     names = ["%s_%d" % (prefix, i) for i in range(1, name_no[0] + 1)]
     try:
         traces = []
@@ -159,7 +187,9 @@ def run(ctx):
             open(sp, "w").write("\n".join(lines) + "\n")
             rc, out, to = run_driver([exe, sp, tp, prefix], timeout=300)
             if to or rc != 0:
-                rc, out, to = run_driver([exe, sp, tp, prefix], timeout=300)
+                ipcnames.cleanup(names)        # a killed run leaves its segment behind with the lock taken: the repetition starts from nothing
+                rc, out, to = run_driver([exe, sp, tp, prefix], timeout=120)
+                ipcnames.cleanup(names)
             if to or rc != 0:
                 ctx.violation("%s:%s" % ("hang" if to else "crash", kind), "drv_shmbuf %s: %s" % ("hang" if to else "rc=%d" % rc, out[-1200:]), [sp])
                 continue
